@@ -6,7 +6,7 @@ extra = sys.argv[4] if len(sys.argv) > 4 else ""
 p = [json.loads(l) for l in open(os.path.join(os.path.dirname(__file__), "..", "properties.jsonl")) if json.loads(l)["id"] == pid][0]
 print(f"""You are helping to evaluate a verification effort for the Python library cobrapy (opencobra/cobrapy, constraint-based metabolic modelling; LP solving through optlang/GLPK). Your job is to play the role of a developer who introduces a realistic, subtle regression.
 
-You have your own scratch git worktree of the library at {wt} (source in {wt}/src/cobra, tests in {wt}/tests). Work ONLY inside {wt} and {out}. Do not read or touch /repo or /verif. There is no network. Python is /venv/bin/python; to make it import YOUR copy of the library always run with PYTHONPATH={wt}/src (check once with: PYTHONPATH={wt}/src /venv/bin/python -c "import cobra; print(cobra.__file__)" - it must print a path under {wt}). Only the glpk and glpk_exact solver interfaces are installed. Set cobra.Configuration().processes explicitly when you call analyses (the default spawns 15 processes). Always run commands under `timeout`.
+You have your own scratch git worktree of the library at {wt} (source in {wt}/src/cobra, tests in {wt}/tests). Work ONLY inside {wt} and {out}. Do not read or touch /repo or /verif. There is no network. Python is /venv/bin/python; to make it import YOUR copy of the library always run with PYTHONPATH={wt}/src (check once with: PYTHONPATH={wt}/src /venv/bin/python -c "import cobra; print(cobra.__file__)" - it must print a path under {wt}). Only the glpk and glpk_exact solver interfaces are installed. Set cobra.Configuration().processes explicitly when you call analyses (the default spawns 15 processes). Always run commands under `timeout`. Never use `git stash` (the stash is shared by all worktrees of this repository and other people use it concurrently): save work with `git diff > file`, restore with `git apply file`.
 
 The semantic property under study:
 
